@@ -302,6 +302,12 @@ def harness(cx, cfg):
             sd, cd = trig.sincos(trig.deg2rad(dec))
             for got, want in zip((x, y, z), (cl * cd, sl * cd, sd)):
                 cx.check_eq("eq2xyz: (cos lon cos lat, sin lon cos lat, sin lat)", got, want)
+            # conditioning probe (the 1e-9 degree of the unit-vector conversions near the poles): no cosine
+            # recovered from the sine through sqrt(1 - sin^2); settled by the replay next to the poles
+            from vf import poly
+            for wname, (kind, rad) in list(cx.witness_defs.items()):
+                if kind == "sqrt" and poly.equal(rad, symx.real_term(cd * cd), cx.rules):
+                    cx.check("eq2xyz: no cosine recovered from the sine through sqrt(1 - sin^2) (ill-conditioned at the poles)", False)
             return
         if what == "xyz2eq":
             # inverse of eq2xyz at the level of directions: feed eq2xyz's output back
@@ -627,6 +633,15 @@ def replay(cand):
         r2, d2 = co.xyz2eq(x, y, z, stomp=stomp)
         if not (0 <= r2[0] <= 360) or _sep(ra, dec, r2[0], d2[0]) > 1e-9:
             return {"reproduced": True, "key": "xyz2eq", "what": "xyz2eq(eq2xyz(%r, %r), stomp=%s) = (%r, %r)" % (ra, dec, stomp, r2[0], d2[0])}
+        import numpy as np
+        L = np.longdouble
+        d2r = np.arctan(L(1)) * 4 / 180
+        for ra_, dec_ in ((33.0, 89.99999), (211.5, -89.999999), (100.0, 89.9999999)):
+            x, y, z = co.eq2xyz(ra_, dec_)
+            w = (np.cos(L(ra_) * d2r) * np.cos(L(dec_) * d2r), np.sin(L(ra_) * d2r) * np.cos(L(dec_) * d2r), np.sin(L(dec_) * d2r))
+            err = max(abs(float(L(a[0]) - b)) for a, b in zip((x, y, z), w))
+            if err > 1.7e-11:
+                return {"reproduced": True, "key": "eq2xyz:polar-accuracy", "what": "eq2xyz(%r, %r) is %.3g off the true unit vector (1e-9 degree = 1.7e-11)" % (ra_, dec_, err)}
         return no
     if what in ("eq2sdss", "sdss2eq", "sdss_ranges"):
         if what == "sdss_ranges":
